@@ -107,6 +107,21 @@ def border_fan(k=1):
     return cycles, info
 
 
+def border_fan4(k=1):
+    """a vertex P on the tissue border shared by FOUR cells: three internal spokes and two border interfaces end there, so it
+    carries equations while border interfaces end at it too (their versors are computed but must not be used)"""
+    P, Q = 55, [20, 21, 22, 23, 24]
+    X = [26, 27, 28, 29]
+    s = [[4000 + 100 * i + j for j in range(k)] for i in range(5)]
+    spoke = [_path(P, s[i], Q[i]) for i in range(5)]
+    c = [4, 9, 2, 6]
+    cycles = {c[i]: spoke[i] + [X[i]] + spoke[i + 1][::-1][:-1] for i in range(4)}
+    info = dict(junction_rows=[P], internal=[spoke[1], spoke[2], spoke[3]], three_cell_vertices=[P],
+                external=[spoke[0] + [X[0], Q[1]], [Q[1], X[1], Q[2]], [Q[2], X[2], Q[3]], spoke[4] + [X[3], Q[3]]],
+                cells_of={tuple(spoke[1]): (c[0], c[1]), tuple(spoke[2]): (c[1], c[2]), tuple(spoke[3]): (c[2], c[3])})
+    return cycles, info
+
+
 def tri_star_ear(k=1):
     """tri_star whose first outer arc carries an extra cell ('ear') glued along one mesh edge: the ear touches no
     internal interface (its only shared interface has no end with three cells)"""
@@ -149,7 +164,7 @@ def tri_star_two_ears(k=1):
     return cycles, info
 
 
-SHAPES = {"tri_star": tri_star, "tri_star_ear": tri_star_ear, "tri_star_two_ears": tri_star_two_ears, "five_fold": five_fold, "six_fold": six_fold, "double_y": double_y, "four_fold": four_fold, "border_fan": border_fan}
+SHAPES = {"tri_star": tri_star, "tri_star_ear": tri_star_ear, "tri_star_two_ears": tri_star_two_ears, "five_fold": five_fold, "six_fold": six_fold, "double_y": double_y, "four_fold": four_fold, "border_fan": border_fan, "border_fan4": border_fan4}
 
 
 def vertex_ids(cycles):
